@@ -177,7 +177,8 @@ def checkValue (S : Schema) : Value → GType → List Err
       match td.kind with
       | .scalar => if scalarAccepts td.name (.obj [] p) then [] else [(.TypeMismatch, p)]
       | .input =>
-        checkObjFields S fs td.inputs ++ (if objShapeOk td.inputs fs then [] else [(.TypeMismatch, p)])
+        -- `for expected_field in object_def.fields { value.fields.find(key == name) → check_value }`
+        (td.inputs.flatMap fun ef => checkFieldFind S fs ef.name ef.ty) ++ (if objShapeOk td.inputs fs then [] else [(.TypeMismatch, p)])
       | _ => [(.TypeMismatch, p)]
   | .enum e p, ty =>
     match S.typeDef? ty.unwrapped with
@@ -199,10 +200,6 @@ def checkValue (S : Schema) : Value → GType → List Err
 def checkValueList (S : Schema) : List Value → GType → List Err
   | [], _ => []
   | v :: vs, ty => checkValue S v ty ++ checkValueList S vs ty
-/-- `for expected_field in object_def.fields { value.fields.find(key == name) → check_value }` -/
-def checkObjFields (S : Schema) (fs : List (Name × Pos × Value)) : List InputValueDef → List Err
-  | [] => []
-  | ef :: efs => checkFieldFind S fs ef.name ef.ty ++ checkObjFields S fs efs
 /-- `check_value` of the first field of the object literal with the given key (nothing if absent) -/
 def checkFieldFind (S : Schema) : List (Name × Pos × Value) → Name → GType → List Err
   | [], _, _ => []
@@ -217,6 +214,8 @@ def checkArguments (S : Schema) (parentPos : Pos) (args : List Arg) (defs : List
   if defs.isEmpty then
     (if args.isEmpty then [] else [(.ArgumentsNotNeeded, parentPos)])
   else
+    -- "Argument names must be unique; only the first argument of a name is matched below"
+    loopSeen (·.1) (fun dup (a : Arg) => if dup then [(ErrKind.UnknownArgument, a.2.1)] else []) [] args ++
     (defs.flatMap fun ad =>
       match args.find? (·.1 == ad.name) with
       | none => if InputValueDef.required ad then [(.RequiredArgumentNotSpecified, parentPos)] else []
